@@ -9,6 +9,289 @@ import tomo_setups as ts
 from quara.objects.operators import compose_qoperations
 from quara.settings import Settings
 
+import ast
+import os
+import common
+import pymat2lean as P2L
+
+TOMO = "quara/protocol/qtomography/standard/"
+
+
+def _loops(fn, rel):
+    """outer `for schedule_index, schedule in enumerate(...)` (or `for schedule_index in range(...)`) and the first inner loop"""
+    outer = [n for n in fn.body if isinstance(n, ast.For)]
+    if len(outer) != 1:
+        P2L.fail(rel, fn, "expected exactly one loop over the schedules")
+    o = outer[0]
+    oname = o.target.elts[0].id if isinstance(o.target, ast.Tuple) else o.target.id
+    inner = [n for n in o.body if isinstance(n, ast.For)]
+    if len(inner) != 1:
+        P2L.fail(rel, o, "expected exactly one loop over the outcomes")
+    i = inner[0]
+    iname = i.target.elts[0].id if isinstance(i.target, ast.Tuple) else i.target.id
+    return o, oname, i, iname
+
+
+def _flag_if(scope, rel):
+    ifs = [n for n in scope.body if isinstance(n, ast.If) and ast.unparse(n.test) == "on_para_eq_constraint"]
+    if len(ifs) != 1 or not ifs[0].orelse:
+        P2L.fail(rel, scope, "expected `if on_para_eq_constraint: … else: …`")
+    return ast.Module(body=ifs[0].body, type_ignores=[]), ast.Module(body=ifs[0].orelse, type_ignores=[])
+
+
+def _stores(branch, rel):
+    st = P2L.dict_stores(branch, {"coeffs_0th", "coeffs_1st"}, rel)
+    d = {k: v for k, _, v, _ in st}
+    if set(d) != {"coeffs_0th", "coeffs_1st"} or len(st) != 2:
+        P2L.fail(rel, branch.body[0], "expected one store into _coeffs_0th and one into _coeffs_1st")
+    return st, d
+
+
+def _lookup(scope, var, coll, idx, rel):
+    """`<var> = <…>.<coll>[<idx>]`: the tester must be looked up with the index taken from the schedule"""
+    a = P2L.assigns(scope).get(var)
+    if not a or len(a) != 1 or not isinstance(a[0].value, ast.Subscript) \
+            or not ast.unparse(a[0].value.value).endswith(coll) or ast.unparse(a[0].value.slice) != idx:
+        P2L.fail(rel, (a[0] if a else scope), f"expected `{var} = ….{coll}[{idx}]`")
+
+
+def _target_item(cls, rel):
+    fn = P2L.find_func(cls, "_get_target_index", rel)
+    ret = [n for n in ast.walk(fn) if isinstance(n, ast.Return)]
+    if len(ret) != 1 or not isinstance(ret[0].value, ast.Name):
+        P2L.fail(rel, fn, "expected `return <name>`")
+    return P2L.schedule_item(fn, ret[0].value.id, rel), fn.lineno
+
+
+def translate(ctx):
+    """regenerate lean/QGen/C08.lean from the four `_set_coeffs` / `calc_c_qpt` / `cqpt_to_cqmpt`, `_get_target_index`,
+    `calc_matA / calc_vecB / calc_prob_dists`: schedule item positions, dictionary key order, the row expressions of QST /
+    QPT / POVMT (slices, offsets, split point, tile count, constants), the QMPT block constants.  Raises on source it
+    cannot translate (e.g. a tester looked up with another index, a `sorted` with a key, another reshape)."""
+    out = ["import QModel.C08",
+           "/-! GENERATED on every run by harness/c08.py:translate (harness/pymat2lean.py) from the Python sources of quara — do not edit. -/",
+           "namespace QGen.C08", ""]
+    trees = {f: P2L.load(os.path.join(common.REPO, TOMO + f)) for f in
+             ("standard_qst.py", "standard_povmt.py", "standard_qpt.py", "standard_qmpt.py", "standard_qtomography.py")}
+    # ---------------------------------------------------------------- which item of a schedule is the unknown
+    for f, cname, short in (("standard_qst.py", "StandardQst", "qst"), ("standard_povmt.py", "StandardPovmt", "povmt"),
+                            ("standard_qpt.py", "StandardQpt", "qpt"), ("standard_qmpt.py", "StandardQmpt", "qmpt")):
+        rel = TOMO + f
+        k, ln = _target_item(P2L.find_class(trees[f], cname, rel), rel)
+        out += [f"/-- {rel}:{ln} `_get_target_index`: position of the unknown in a schedule -/",
+                f"def {short}_target_item : Int := {k}", ""]
+    # ---------------------------------------------------------------- QST
+    rel = TOMO + "standard_qst.py"
+    fn = P2L.find_func(P2L.find_class(trees["standard_qst.py"], "StandardQst", rel), "_set_coeffs", rel)
+    o, on, i, inn = _loops(fn, rel)
+    k = P2L.schedule_item(o, "povm_index", rel)
+    _lookup(o, "povm", "povms", "povm_index", rel)
+    if ast.unparse(i.iter) != "enumerate(povm.vecs)":
+        P2L.fail(rel, i, "expected the outcome loop over enumerate(povm.vecs)")
+    vec = i.target.elts[1].id
+    bt, bf = _flag_if(i, rel)
+    st_t, d_t = _stores(bt, rel)
+    st_f, d_f = _stores(bf, rel)
+    key = P2L.key_function(st_t + st_f, on, inn, rel)
+    rows = []
+    for d in (d_t, d_f):
+        rx = P2L.RowExpr(rel, {vec: "vec"}, {"np.sqrt(dim)"}, {}, {})
+        a, ka = rx.expr(d["coeffs_1st"])
+        b, kb = rx.expr(d["coeffs_0th"])
+        if (ka, kb) != ("list", "scalar"):
+            P2L.fail(rel, d["coeffs_1st"], "row / offset of the wrong kind")
+        rows.append(P2L.option_pair(rx, a, b))
+    out += [f"/-- {rel}:{fn.lineno} `_set_coeffs`: item of the schedule that names the tester POVM (−1 = last) -/",
+            f"def qst_tester_item : Int := {k}", "",
+            f"/-- {rel}: dictionary key of `_coeffs_0th / _coeffs_1st` -/",
+            f"def qst_key (schedule_index element_index : Nat) : Nat × Nat := {key}", "",
+            f"/-- {rel}:{i.lineno} the pair `(_coeffs_1st[key], _coeffs_0th[key])` of one POVM element; `r` = `np.sqrt(dim)` -/",
+            "def qst_row {K : Type} [Div K] [Zero K] (flag : Bool) (r : K) (vec : List K) : Option (List K × K) :=",
+            f"  if flag then {rows[0]}", f"  else {rows[1]}", ""]
+    # ---------------------------------------------------------------- QPT (calc_c_qpt)
+    rel = TOMO + "standard_qpt.py"
+    fn = [n for n in trees["standard_qpt.py"].body if isinstance(n, ast.FunctionDef) and n.name == "calc_c_qpt"]
+    if len(fn) != 1:
+        P2L.fail(rel, "calc_c_qpt", "function not found")
+    fn = fn[0]
+    o, on, i, inn = _loops(fn, rel)
+    ks = P2L.schedule_item(o, "state_index", rel, consts=fn)
+    kp = P2L.schedule_item(o, "povm_index", rel, consts=fn)
+    _lookup(o, "state", "states", "state_index", rel)
+    _lookup(o, "povm", "povms", "povm_index", rel)
+    if ast.unparse(i.iter) != "enumerate(povm.vecs)":
+        P2L.fail(rel, i, "expected the outcome loop over enumerate(povm.vecs)")
+    pv = i.target.elts[1].id
+    ca = P2L.assigns(i).get("c")
+    if not ca or len(ca) != 1:
+        P2L.fail(rel, i, "expected one assignment to c")
+    cv = ca[0].value
+    if not (isinstance(cv, ast.Call) and ast.unparse(cv.func).endswith(".flatten") and not cv.args
+            and isinstance(cv.func.value, ast.Call) and ast.unparse(cv.func.value.func) == "np.outer"
+            and len(cv.func.value.args) == 2):
+        P2L.fail(rel, cv, "expected `np.outer(u, v).flatten()`")
+    names = {pv: "povm_vec", "state.vec": "state_vec"}
+    args = []
+    for a_ in cv.func.value.args:
+        if ast.unparse(a_) not in names:
+            P2L.fail(rel, cv, "outer product of something else than the POVM element and the state vector")
+        args.append(names[ast.unparse(a_)])
+    bt, bf = _flag_if(i, rel)
+    st_t, d_t = _stores(bt, rel)
+    st_f, d_f = _stores(bf, rel)
+    key = P2L.key_function(st_t + st_f, on, inn, rel)
+    local = {k_: v[0].value for k_, v in P2L.assigns(o).items() if len(v) == 1 and k_ != "c"}
+    rows = []
+    for d in (d_t, d_f):
+        rx = P2L.RowExpr(rel, {"c": "c"}, set(), {"vec_size": "n", "state.vec.shape[0]": "n"}, local)
+        a, ka = rx.expr(d["coeffs_1st"])
+        b, kb = rx.expr(d["coeffs_0th"])
+        if (ka, kb) != ("list", "scalar"):
+            P2L.fail(rel, d["coeffs_1st"], "row / offset of the wrong kind")
+        rows.append(P2L.option_pair(rx, a, b))
+    out += [f"/-- {rel}:{fn.lineno} `calc_c_qpt`: items of the schedule naming the tester state / tester POVM -/",
+            f"def qpt_state_item : Int := {ks}", f"def qpt_povm_item : Int := {kp}", "",
+            f"/-- {rel}: dictionary key -/",
+            f"def qpt_key (schedule_index element_index : Nat) : Nat × Nat := {key}", "",
+            f"/-- {rel}:{ca[0].lineno} `c = {ast.unparse(cv)}` -/",
+            "def qpt_c {K : Type} [Mul K] (povm_vec state_vec : List K) : List K := " + f"QM.C08.outerFlat {args[0]} {args[1]}", "",
+            f"/-- {rel}:{i.lineno} the pair `(coeffs_1st[key], coeffs_0th[key])` from the row `c`; `n` = `state.vec.shape[0]` -/",
+            "def qpt_row {K : Type} [Zero K] (flag : Bool) (n : Nat) (c : List K) : Option (List K × K) :=",
+            f"  if flag then {rows[0]}", f"  else {rows[1]}", ""]
+    # ---------------------------------------------------------------- POVMT
+    rel = TOMO + "standard_povmt.py"
+    fn = P2L.find_func(P2L.find_class(trees["standard_povmt.py"], "StandardPovmt", rel), "_set_coeffs", rel)
+    o, on, i, inn = _loops(fn, rel)
+    ks = P2L.schedule_item(o, "state_index", rel, consts=fn)
+    _lookup(o, "state", "states", "state_index", rel)
+    if ast.unparse(i.iter) != "range(m)":
+        P2L.fail(rel, i, "expected the outcome loop over range(m)")
+    loc = P2L.assigns(i)
+    nat = {inn: "m_index", "vec_size": "vec_size", "m": "m"}
+    rxn = P2L.RowExpr(rel, {}, set(), nat, {})
+
+    def zeros_len(name):
+        a_ = loc.get(name)
+        if not a_ or len(a_) != 1 or not ast.unparse(a_[0].value).startswith("np.zeros((1, ") \
+                or not ast.unparse(a_[0].value).endswith(").flatten()"):
+            P2L.fail(rel, i, f"expected `{name} = np.zeros((1, <len>)).flatten()`")
+        return rxn.nat_of(a_[0].value.func.value.args[0].elts[1])
+    pre, post = zeros_len("pre_zeros"), zeros_len("post_zeros")
+    apps = [ast.unparse(n.args[0]) for n in sorted((x for x in ast.walk(i) if isinstance(x, ast.Call)),
+                                                   key=lambda x: (x.lineno, x.col_offset))
+            if ast.unparse(n.func) == "stack_list.append" and len(n.args) == 1]      # in source order
+    part = {"pre_zeros": f"QM.C08.zeros ({pre})", "state.vec": "rho", "post_zeros": f"QM.C08.zeros ({post})"}
+    if sorted(apps) != sorted(part) or ast.unparse(loc["c"][0].value) != "np.hstack(stack_list)":
+        P2L.fail(rel, i, "expected c = np.hstack of pre_zeros, state.vec, post_zeros")
+    cexp = " ++ ".join(part[a_] for a_ in apps)
+    bt, bf = _flag_if(i, rel)
+    st_t, d_t = _stores(bt, rel)
+    st_f, d_f = _stores(bf, rel)
+    key = P2L.key_function(st_t + st_f, on, inn, rel)
+    sp = [n for n in ast.walk(bt) if isinstance(n, ast.Assign) and isinstance(n.targets[0], ast.Tuple)]
+    if len(sp) != 1 or ast.unparse(sp[0].targets[0]) != "(a_prime, c_prime)" \
+            or not ast.unparse(sp[0].value).startswith("np.split(c, ["):
+        P2L.fail(rel, i, "expected `a_prime, c_prime = np.split(c, [<k>])`")
+    split = rxn.nat_of(sp[0].value.args[1].elts[0])
+    la = P2L.assigns(bt)
+    av = la["a"][0].value
+    if not (isinstance(av, ast.BinOp) and isinstance(av.op, ast.Sub) and ast.unparse(av.left) == "a_prime"
+            and isinstance(av.right, ast.Call) and ast.unparse(av.right.func) == "np.tile"
+            and ast.unparse(av.right.args[0]) == "c_prime"):
+        P2L.fail(rel, av, "expected `a = a_prime - np.tile(c_prime, <k>)`")
+    tile = rxn.nat_of(av.right.args[1])
+    if ast.unparse(d_t["coeffs_1st"]) != "a" or ast.unparse(d_f["coeffs_1st"]) != "c":
+        P2L.fail(rel, i, "expected _coeffs_1st = a (flag) / c (no flag)")
+    local = {k_: v[0].value for k_, v in P2L.assigns(o).items() if len(v) == 1}
+    rxb = P2L.RowExpr(rel, {"c_prime": "c_prime"}, {"np.sqrt(dim)"}, {}, {"b": la["b"][0].value, "dim": local["dim"]})
+    b_t, kb = rxb.expr(d_t["coeffs_0th"])
+    rxf = P2L.RowExpr(rel, {}, set(), {}, {})
+    b_f, _ = rxf.expr(d_f["coeffs_0th"])
+    out += [f"/-- {rel}:{fn.lineno} `_set_coeffs`: item of the schedule naming the tester state -/",
+            f"def povmt_state_item : Int := {ks}", "",
+            f"def povmt_key (schedule_index element_index : Nat) : Nat × Nat := {key}", "",
+            f"/-- {rel}:{i.lineno} one row of `_set_coeffs` (hstack order, zero paddings, split point, tile count and offset"
+            " read from the source); `r` = `np.sqrt(dim)`, `rho` = `state.vec` -/",
+            "def povmt_row {K : Type} [Mul K] [Sub K] [Zero K] (flag : Bool) (r : K) (m : Nat) (rho : List K) (m_index : Nat) :",
+            "    Option (List K × K) :=",
+            "  let vec_size := rho.length",
+            f"  let c := {cexp}",
+            "  if flag then",
+            f"    let a_prime := c.take ({split})",
+            f"    let c_prime := c.drop ({split})",
+            "    " + P2L.option_pair(rxb, f"QM.C08.lsub a_prime (QM.C08.tile ({tile}) c_prime)", b_t),
+            f"  else some (c, {b_f})", ""]
+    # ---------------------------------------------------------------- QMPT
+    rel = TOMO + "standard_qmpt.py"
+    cls = P2L.find_class(trees["standard_qmpt.py"], "StandardQmpt", rel)
+    fn = P2L.find_func(cls, "_set_coeffs", rel)
+    o, on, i, inn = _loops(fn, rel)
+    st = P2L.dict_stores(i, {"coeffs_0th", "coeffs_1st"}, rel)
+    key = P2L.key_function(st, on, inn, rel)
+    cf = [n for n in trees["standard_qmpt.py"].body if isinstance(n, ast.FunctionDef) and n.name == "cqpt_to_cqmpt"][0]
+    bt, bf = _flag_if(cf, rel)
+    la, lf = P2L.assigns(bt), P2L.assigns(bf)
+    rxn = P2L.RowExpr(rel, {}, set(), {"dim": "dim", "m_mprocess": "m"}, {})
+
+    def col_slice(name, want_upper):
+        v = la[name][0].value
+        if not (isinstance(v, ast.Subscript) and ast.unparse(v.value) == "c_qpt" and isinstance(v.slice, ast.Tuple)
+                and len(v.slice.elts) == 2 and isinstance(v.slice.elts[1], ast.Slice)):
+            P2L.fail(rel, v, "expected a column slice of c_qpt")
+        sl = v.slice.elts[1]
+        e = sl.upper if want_upper else sl.lower
+        if e is None or (sl.lower if want_upper else sl.upper) is not None:
+            P2L.fail(rel, v, "unexpected column slice")
+        return rxn.nat_of(e)
+
+    def times(node):
+        if not (isinstance(node, ast.BinOp) and isinstance(node.op, ast.Mult) and ast.unparse(node.left) == "[c_qpt]"):
+            P2L.fail(rel, node, "expected `[c_qpt] * <count>`")
+        return rxn.nat_of(node.right)
+    b1 = la["b_1"][0].value
+    if not (isinstance(b1, ast.Subscript) and ast.unparse(b1.value) == "d_qpt.T"):
+        P2L.fail(rel, b1, "expected `b_1 = d_qpt.T[k]`")
+    no = P2L.find_func(cls, "num_outcomes", rel)
+    nr = [n for n in ast.walk(no) if isinstance(n, ast.Return)][0].value
+    rxo = P2L.RowExpr(rel, {}, set(), {"num_outcomes_povm": "num_outcomes_povm", "num_outcomes_mprocess": "num_outcomes_mprocess"}, {})
+    out += [f"def qmpt_key (schedule_index element_index : Nat) : Nat × Nat := {key}", "",
+            f"/-- {rel}:{cf.lineno} `cqpt_to_cqmpt`: columns of `d_qpt` / start of `e_qpt`, number of diagonal blocks with and"
+            " without the flag, column of `d_qpt` that gives `b_1` -/",
+            f"def qmpt_d_cols (dim : Nat) : Nat := {col_slice('d_qpt', True)}",
+            f"def qmpt_e_from (dim : Nat) : Nat := {col_slice('e_qpt', False)}",
+            f"def qmpt_blocks_flag (m : Nat) : Nat := {times(la['c_list'][-1].value)}",
+            f"def qmpt_blocks (m : Nat) : Nat := {times(lf['c_list'][-1].value)}",
+            f"def qmpt_b1_col : Nat := {P2L.subscript_index(b1, rel)}",
+            f"/-- {rel}:{no.lineno} `num_outcomes` -/",
+            f"def qmpt_num_outcomes (num_outcomes_povm num_outcomes_mprocess : Nat) : Nat := {rxo.nat_of(nr)}", ""]
+    # ---------------------------------------------------------------- calc_matA / calc_vecB / calc_prob_dists (shape of the code)
+    rel = TOMO + "standard_qtomography.py"
+    cls = P2L.find_class(trees["standard_qtomography.py"], "StandardQTomography", rel)
+    for name, d, fin in (("calc_matA", "_coeffs_1st", "np.vstack(sorted_values)"),
+                         ("calc_vecB", "_coeffs_0th", "np.vstack(sorted_values).flatten()")):
+        f_ = P2L.find_func(cls, name, rel)
+        body = [ast.unparse(x) for x in P2L.strip_doc(f_.body)]
+        v1 = "sorted_" + d[1:]
+        want = [f"{v1} = sorted(self.{d}.items())", f"sorted_values = [k[1] for k in {v1}]"]
+        if body[:2] != want or fin not in body[2]:
+            P2L.fail(rel, f_, f"{name} is not `sorted(self.{d}.items())` → values → vstack any more")
+    f_ = P2L.find_func(cls, "calc_prob_dists", rel)
+    src = ast.unparse(f_)
+    for frag in ("self.calc_matA() @ qope.to_var() + self.calc_vecB()", "self.calc_matA() @ qope.to_stacked_vector() + self.calc_vecB()",
+                 "tmp_prob_dists.reshape((self.num_schedules, -1))", "matrix_util.truncate_and_normalize(prob_dists)"):
+        if frag not in src:
+            P2L.fail(rel, f_, f"calc_prob_dists no longer contains `{frag}`")
+    f1 = P2L.find_func(cls, "calc_prob_dist", rel)
+    if "prob_dists[schedule_index]" not in ast.unparse(f1):
+        P2L.fail(rel, f1, "calc_prob_dist no longer returns prob_dists[schedule_index]")
+    out += ["/-- standard_qtomography.py: `calc_matA / calc_vecB` = `sorted(dict.items())` → values → vstack; `calc_prob_dists` ="
+            " `matA @ var + vecB`, `reshape((num_schedules, -1))`, `truncate_and_normalize`; `calc_prob_dist` = entry"
+            " `[schedule_index]` (checked structurally by the translator, which raises otherwise) -/",
+            "def assembly_shape_checked : Bool := true", "", "end QGen.C08", ""]
+    P2L.write_if_changed(os.path.join(common.LEAN, "QGen", "C08.lean"), "\n".join(out))
+    return []
+
+
 KNOWN_RESHAPE = "C08/calc_prob_dists/mixed-outcome-counts/reshape-raises"
 KNOWN_GROUPING = "C08/calc_prob_dists/mixed-outcome-counts/wrong-grouping"
 
@@ -208,6 +491,16 @@ def correspondence(ctx):
                     pd = ("err", impl_err(ex))
                 i = drv.ask("probdists", kind, fl, r, m, q(eps), st, pv, sc, vt)
                 pend.append(("probdists", (spec, lab), pd, i))
+                if lab == "interior" and (spec[6] == "all" or not ctx.quick):
+                    for idx in (len(S.pairs) - 1, len(S.pairs)):     # last schedule; one past the end (IndexError)
+                        try:
+                            p1 = ("ok", [list(S.qt.calc_prob_dist(obj, idx))])
+                        except ValueError as ex:
+                            p1 = ("err", impl_err(ex))
+                        except IndexError:
+                            p1 = ("err", "index")
+                        i = drv.ask("probdist1", kind, fl, r, m, q(eps), st, pv, sc, vt, idx)
+                        pend.append(("probdist1", (spec, lab, idx), p1, i))
             else:
                 pend.append(("circuit", (spec, lab), A @ v + b, i))   # model circuit vs implementation's affine map
             ctx.case(("corr", spec, lab), nontrivial=True,
@@ -251,7 +544,7 @@ def correspondence(ctx):
         elif op == "predict-shape":
             if (t[0], t[1] if len(t) > 1 else None) != (impl[0], impl[1] if len(impl) > 1 else None):
                 ctx.disagree(op, inp, impl, out[i][:60])
-        elif op == "probdists":
+        elif op in ("probdists", "probdist1"):
             if impl[0] == "err":
                 if t[0] != "err" or t[1] != impl[1]:
                     ctx.disagree(op, inp, impl, out[i][:60])
@@ -423,9 +716,6 @@ def check_incomplete(ctx):
 
 
 PARTIAL = [
-    {"theorem": "QM.C08.calcProbDists_eq_circuit_partial",
-     "missing": "schedules with different outcome counts: calc_prob_dists' reshape((num_schedules,-1)) is wrong there "
-                "(defect D8; negation witnesses calcProbDists_mixed_counts_fails / _regroups_fails)"},
     {"theorem": "QM.C08.qmpt_walk_eq_born",
      "missing": "eps_zero clipping and truncate_and_normalize inside compose_qoperations are not modelled (hypothesis p_x ≠ 0)"},
 ]
